@@ -1,5 +1,5 @@
 CONSTANTS
-  Queries <- Q2
+  Queries <- Q3
   Filter <- F2
   Ids = {"1", "2"}
   Vals = {"1", "2"}
@@ -8,6 +8,7 @@ CONSTANTS
   RegisterFirst = TRUE
   BadInvalidates = TRUE
 SPECIFICATION Spec
-INVARIANTS Converged PerQuery
+CONSTRAINT Bounded
+INVARIANTS Converged PerQuery CurWhileHeld
 PROPERTIES EventuallyQuiescent
 CHECK_DEADLOCK FALSE
